@@ -2,6 +2,8 @@
    Exact tier (integer ticks, exact quotients); the float side is tied by the correspondence.
    Statements only. *)
 From PV Require Import Model.Window Proofs.SupportP Proofs.WindowP Proofs.RangesP.
+From Coq Require Reals.
+From PV Require Proofs.RoundFloatP.
 
 Section C15.
 Variable w : win.
@@ -66,6 +68,20 @@ Theorem C15_old_strict_count_refuted :
   exists w d, 0 < w_step w /\ 0 < w_dur w /\ 0 <= d /\ fdiv (d - w_dur w) (w_step w) + 1 < 0.
 Proof. exact old_strict_count_refuted. Qed.
 
+(* ---- binary64 level (tolerance tier of the correspondence, Check/C15.v: KSegF) ----
+   A frame index of crop() before its final ceil / floor / rint is ((x1 - x2) - x3) / step  (loose start: focus.start,
+   duration, start; strict end: focus.end, duration, start; with x3 = 0: loose end and strict start; centre: t, start,
+   duration / 2).  Computed with every operation rounded to nearest-even binary64 it is within 8 * 2^-53 * (sum of
+   operand magnitudes) / step of the exact quotient: the band the checker accepts (2^-40 relative) is 2^10 times wider, so
+   a correct implementation is never flagged, while an index one frame off is.  Uses the real-number axioms. *)
+Module Binary64.
+Import Reals. Local Open Scope R_scope.
+Theorem C15_binary64_frame_quotient_error : forall x1 x2 x3 step : R, 0 < step ->
+  Rabs (RoundFloatP.rnd64 (RoundFloatP.rnd64 (RoundFloatP.rnd64 (x1 - x2) - x3) / step) - (x1 - x2 - x3) / step)
+  <= 8 * RoundFloatP.u64 * (Rabs x1 + Rabs x2 + Rabs x3) / step + 8 * RoundFloatP.eta64 * (/ step + 1).
+Proof. exact RoundFloatP.binary64_quotient_error. Qed.
+End Binary64.
+
 Example C15_nonvacuous :
   crop_range (mkWin 2 1 0 None) (3, 7) ALoose None = (1, 8) /\
   crop_range (mkWin 2 1 0 None) (3, 7) AStrict None = (3, 6) /\
@@ -86,3 +102,4 @@ Print Assumptions C15_ranges_are_separated_runs.
 Print Assumptions C15_samples_is_never_negative.
 Print Assumptions C15_no_frame_fits_in_less_than_a_window.
 Print Assumptions C15_old_strict_count_refuted.
+Print Assumptions Binary64.C15_binary64_frame_quotient_error.
